@@ -305,3 +305,7 @@ func scale(quick, thorough int) int {
 	_, n := ev.Shard()
 	return (thorough + n - 1) / n
 }
+
+func evThorough() bool { return ev.Thorough() }
+
+func flagSet(name, val string) { flag.Set(name, val) }
